@@ -16,6 +16,7 @@ import (
 	"orbverif/altstack"
 	"orbverif/fw"
 	"orbverif/run"
+	"orbverif/spec"
 	"orbverif/world"
 )
 
@@ -281,6 +282,11 @@ func relLimit(lim uint64, n int) string {
 
 // QueryOracle checks every dispatcher query against the exported statistics in ctx.
 func QueryOracle(e *fw.Env, w *world.World, ctx sdk.Context, hist any) {
+	defer func() {
+		if r := recover(); r != nil {
+			e.Res.Violate(fw.Violation{Property: "C13", Kind: "query-panicked", Detail: fmt.Sprintf("a statistics query panicked: %v", r), Witness: hist})
+		}
+	}()
 	q := dispatchercomp.NewQueryServer(w.App.OrbiterKeeper.Dispatcher())
 	st := run.ReadStats(w, ctx)
 	for p := int32(1); p <= 4; p++ {
@@ -435,6 +441,15 @@ func CheckC13(e *fw.Env, l *Lab) {
 		if swapStack != nil && e.R.Intn(2) == 0 {
 			for k := 0; k < 3+e.R.Intn(8); k++ {
 				SwapLedgerStep(e, l, swapStack, swapCtl, ctx)
+			}
+		}
+		// totals at the top of the representable range: 2^255 ubig in one transfer (incoming and
+		// outgoing each hold 2^255 afterwards)
+		if e.R.Intn(2) == 0 {
+			t := run.Transfer{Pair: l.W.Channels[0], Denom: world.BIG, Amount: pow2(255).String(), Sender: l.W.K("bob").String(), Receiver: OrbiterReceiver(),
+				Spec: &spec.Spec{Route: spec.Route{Kind: "internal", To: l.W.K("rcpt1").String()}}}
+			if o := run.Do(l.W, ctx, t, run.Mode{Kind: "H"}); o.Success() {
+				e.Res.Count("histories-with-2^255-totals")
 			}
 		}
 		History(e, l, ctx, sh, steps, every, func(step int, trail []HistOp) bool {
